@@ -25,6 +25,12 @@ DEFAULT = {
     "naux": (0, 2), "p_aux": 0.25, "p_caux": 0.2, "p_done": 0.5, "nslaves": (0, 1), "p_fiat": 0.3, "p_bid": 0.15,
     "p_marker": 0.0, "p_env": 0.8, "ticks": (6, 30), "periods": ["0.125", "0.25", "0.0625"], "p_status_need": 0.1,
     "p_inactive": 0.2, "p_period": 0.2, "go_targets": "any", "p_auxdone": 0.0, "p_done_named": 0.0,
+    "p_copyf": 0.0,          # probability (per context of a frame) of a multi-field 'copy f.. in S into g.. in T' between the two
+                             # three-field shares, S and T possibly the same share, with needs reading single fields
+    "p_susp_sibling": 0.0,   # probability of a sub-forest M > S > {a, b} whose M owns a conditional auxiliary and, declared before it,
+                             # a transition to b: taken while a is active and suspended, S is a suspended shared ancestor
+    "p_go_early": 0.0,       # probability that a frame's first transition is declared before its auxiliary clauses (it then still
+                             # fires while a conditional auxiliary of that frame suspends the frames below)
     "p_go_me_parent": 0.0,   # probability that a frame with children gets a periodic forced re-entry ('go me if recurred >= k')
     "p_staged": 0.0,     # probability of a master framer walking a slave through a drawn sequence of fiats, one per frame
 }
@@ -43,7 +49,12 @@ def _cmp_need(g, neg_ok=True):
     return n
 
 
+PAIRS = [".sim.pair", ".sim.duo"]
+
+
 def _need(g, cfg, framer_names, P, allow_marker=True, aux_names=()):
+    if cfg.get("p_copyf", 0.0) and g.random() < 0.25:
+        return {"t": "cmp", "path": g.choice(PAIRS), "field": g.choice("abc"), "op": g.choice(["==", "!=", "<", ">="]), "goal": g.randint(0, 4)}
     r = g.random()
     if allow_marker and r < cfg["p_marker"]:
         n = {"t": g.choice(["updated", "changed"]), "path": g.choice(SHARES)}
@@ -108,6 +119,11 @@ def _frames(g, cfg, prefix, framer_names, P, aux_names, slave_names, is_aux=Fals
                     acts.append({"k": "put", "ctx": ctx, "path": g.choice(SHARES), "v": g.randint(0, 4)})
                 else:
                     acts.append({"k": "inc", "ctx": ctx, "path": g.choice(SHARES), "v": g.choice([1, 1, 2, -1])})
+            if g.random() < cfg.get("p_copyf", 0.0):
+                k = g.randint(1, 3)
+                src = g.choice(PAIRS)
+                acts.append({"k": "copyf", "ctx": ctx, "src": src, "sf": [g.choice("abc") for _ in range(k)],
+                             "path": src if g.random() < 0.6 else g.choice(PAIRS), "df": g.sample("abc", k)})
         for ctx in ("renter", "rexit", "precur"):
             if g.random() < cfg["p_ctx_extra"]:
                 acts.append({"k": "rec", "ctx": ctx, "tag": "%s.%s" % (nm, ctx)})
@@ -147,11 +163,32 @@ def _frames(g, cfg, prefix, framer_names, P, aux_names, slave_names, is_aux=Fals
                 far = g.choice(names)
             needs = [_need(g, cfg, framer_names, P, aux_names=([] if is_aux else aux_names)) for _ in range(g.choice([0, 1, 1, 1, 2]))]
             acts.append({"k": "go", "far": far, "needs": needs})
+        if g.random() < cfg.get("p_go_early", 0.0):
+            gi = [j for j, a in enumerate(acts) if a["k"] == "go"]
+            ai = [j for j, a in enumerate(acts) if a["k"] == "aux"]
+            if gi and ai and ai[0] < gi[0]:
+                acts.insert(ai[0], acts.pop(gi[0]))
         if has_next and g.random() < cfg["p_timeout"]:
             k = g.randint(0, 6)
             acts.append({"k": "timeout", "v": dec(k * Fraction(P))})
         if has_next and g.random() < cfg["p_repeat"]:
             acts.append({"k": "repeat", "n": g.randint(0, 5)})
+    if not is_aux and aux_names and g.random() < cfg.get("p_susp_sibling", 0.0):
+        pm, ps, pa, pb = [prefix + x for x in ("sm", "ss", "sa", "sb")]
+        host = g.choice([None] + [f["name"] for f in frames if depth[f["name"]] == 0])
+
+        def recs(nm, ctxs):
+            return [{"k": "rec", "ctx": c, "tag": "%s.%s" % (nm, c)} for c in ctxs]
+        m_acts = recs(pm, ("enter", "recur", "exit", "renter", "rexit"))
+        m_acts.append({"k": "go", "far": g.choice([pb, pb, pa]), "needs": [_need(g, cfg, [], P, allow_marker=False)]})
+        m_acts.append({"k": "aux", "name": g.choice(aux_names), "needs": [_need(g, cfg, [], P, allow_marker=False)]})
+        m_acts.append({"k": "go", "far": g.choice(names + ["me"]), "needs": [_need(g, cfg, [], P, allow_marker=False)]})
+        frames.append({"name": pm, "over": host, "acts": m_acts})
+        frames.append({"name": ps, "over": pm, "acts": recs(ps, ("enter", "recur", "exit", "renter", "rexit"))})
+        frames.append({"name": pa, "over": ps, "acts": recs(pa, ("enter", "recur", "exit")) + [{"k": "go", "far": pb, "needs": [_need(g, cfg, [], P, allow_marker=False)]}]})
+        frames.append({"name": pb, "over": ps, "acts": recs(pb, ("enter", "recur", "exit")) + [{"k": "go", "far": g.choice([pa, pm] + names), "needs": [_need(g, cfg, [], P, allow_marker=False)]}]})
+        # make it reachable: an unconditional-ish way in from the first generated frame
+        frames[0]["acts"].append({"k": "go", "far": pm, "needs": [{"t": "recurred", "op": ">=", "goal": g.randint(0, 3)}]})
     return frames
 
 
@@ -233,7 +270,14 @@ def gen_program(g, cfg=None):
                       # abort is final: whatever the other framers' exit actions bid, the run ends
                       {"name": "zclk2", "over": None, "acts": [{"k": "bid", "ctx": "recur", "control": "abort", "who": ["all"]}]}]}
     framers.insert(g.randint(0, len(framers)), clk)
-    return {"P": P, "program": {"house": "h", "framers": framers, "inits": [[s, 0] for s in SHARES]}, "env": env, "ticks": ticks}
+    inits = [[s, 0] for s in SHARES]
+    if cfg.get("p_copyf", 0.0):
+        inits += [[p, {"a": g.randint(0, 4), "b": g.randint(0, 4), "c": g.randint(0, 4)}] for p in PAIRS]
+        if env:
+            for t, writes in env["0"].items():
+                if g.random() < 0.3:
+                    writes.append([g.choice(PAIRS), g.choice("abc"), g.randint(0, 4)])
+    return {"P": P, "program": {"house": "h", "framers": framers, "inits": inits}, "env": env, "ticks": ticks}
 
 
 def env_table(plan_env):
